@@ -471,7 +471,7 @@ func scnC15Faults(rc *RunCtx) {
 	ctx, cancel := context.WithCancel(context.Background())
 	rc.Cleanup(cancel)
 	rec := &Recorder{Sim: rc.Sim}
-	audits := make(chan string, len(lines)+8)
+	audits := make(chan string, 2*len(lines)+80)
 	logins := make(chan common.RemoteUserLogin)
 	ap := &auditd.Auditd{Audits: audits, Logins: logins, EventW: auditevent.NewAuditEventWriter(rec), Health: health.NewHealth()}
 	res := &doneFlag{}
@@ -594,6 +594,20 @@ func scnC15Faults(rc *RunCtx) {
 			pipelinePolicy(rc)
 		}
 		audits <- l + "\n"
+	}
+	if fault == "flush-transient-write-error" && t.Choose(3, "twin.waiting") == 2 {
+		// a second session opened by the same sshd PID waits for its login as well (its records
+		// follow on the stream); whichever of the two the login releases, the failed write counts
+		tw := []*KEvent{k.Login("413", pid, 1000)}
+		for len(tw) < len(evs) {
+			tw = append(tw, GenAction(t, k, "413", pid, 1000))
+		}
+		for _, e := range tw {
+			for _, l := range e.Lines {
+				audits <- l + "\n"
+			}
+		}
+		rc.Sim.Count("c15.two_sessions_waiting_for_one_pid")
 	}
 	if fault == "flush-transient-write-error" {
 		// every record is held; then the login arrives and exactly one write of the flush fails
